@@ -276,6 +276,11 @@ classify_crash(const std::string& err, int wstatus)
     std::string line;
     std::string first_any;
     while (std::getline(in, line)) {
+        // only the faulting stack counts, not the allocation/free stacks
+        if (line.find("is located") != std::string::npos ||
+            line.find("allocated by thread") != std::string::npos ||
+            line.find("freed by thread") != std::string::npos)
+            break;
         size_t h = line.find('#');
         if (h == std::string::npos)
             continue;
